@@ -2,7 +2,7 @@
     Statements only; every proof is [exact <lemma>] or a [vm_compute] witness. *)
 From Coq Require Import String Ascii List Bool Arith ZArith.
 From Raven Require Import Base.GoStr Base.GoStrB64 Spec.Json Model.Auth Spec.AuthSpec
-  Proof.AuthJson Proof.AuthIdent Proof.AuthFlow.
+  Proof.AuthJson Proof.AuthIdent Proof.AuthFlow Proof.AuthSasl Proof.AuthLogin Proof.AuthB64 Proof.AuthPlain Proof.AuthEnd.
 Import ListNotations.
 
 (** (a) For ALL addresses and passwords free of double quote, backslash and
@@ -90,6 +90,80 @@ Theorem c04_session_bound_exact : forall l : list attempt,
 Proof. exact session_bound_exact. Qed.
 Print Assumptions c04_session_bound_exact.
 
+(** ---- entry points: from the bytes on the wire ---- *)
+
+(** LOGIN with atom or quoted arguments made of blank-free, quote-free,
+    backslash-free ASCII octets: exactly (u, p) reaches authenticateUser *)
+Theorem c04_login_args_exact : forall tag fu fp u p,
+  nsp tag = true -> tag <> [] -> classify_login fu fp u p = None ->
+  login_creds false true (login_line tag fu fp u p) = Creds u p.
+Proof. exact login_args_exact. Qed.
+Print Assumptions c04_login_args_exact.
+
+Theorem c04_login_end_to_end : forall d tag fu fp u p b ens init,
+  nsp tag = true -> tag <> [] ->
+  classify_login fu fp u p = None -> classify_cred d u p = None ->
+  imap_spec d u p (accepted b)
+    (run_creds d (login_creds false true (login_line tag fu fp u p)) b ens init).
+Proof. exact login_end_to_end. Qed.
+Print Assumptions c04_login_end_to_end.
+
+(** Go's base64.StdEncoding.DecodeString (model) inverts RFC 4648 encoding of
+    ALL octet strings *)
+Theorem c04_b64_roundtrip : forall s : str, b64_decode (b64_encode s) = Some s.
+Proof. exact b64_roundtrip. Qed.
+Print Assumptions c04_b64_roundtrip.
+
+(** AUTHENTICATE PLAIN with an RFC 4616 message (no NUL inside the fields) *)
+Theorem c04_authplain_exact : forall z u p,
+  count_byte z NUL = 0 -> count_byte u NUL = 0 -> count_byte p NUL = 0 -> u <> [] -> p <> [] ->
+  authplain_creds false true (b64_encode (z ++ NUL :: u ++ NUL :: p) ++ crlf) = Creds u p.
+Proof. exact authplain_exact. Qed.
+Print Assumptions c04_authplain_exact.
+
+Theorem c04_authplain_end_to_end : forall d z u p b ens init,
+  count_byte z NUL = 0 -> count_byte u NUL = 0 -> count_byte p NUL = 0 -> u <> [] -> p <> [] ->
+  classify_cred d u p = None ->
+  imap_spec d u p (accepted b)
+    (run_creds d (authplain_creds false true (b64_encode (z ++ NUL :: u ++ NUL :: p) ++ crlf)) b ens init).
+Proof. exact authplain_end_to_end. Qed.
+Print Assumptions c04_authplain_end_to_end.
+
+(** ---- the SASL service ---- *)
+
+(** the service decodes exactly (id, authcid, passwd) from a Dovecot AUTH line *)
+Theorem c04_sasl_decoded_exact : forall id z u p,
+  count_byte id TAB = 0 ->
+  count_byte z NUL = 0 -> count_byte u NUL = 0 -> count_byte p NUL = 0 ->
+  sasl_decoded (S_AUTH ++ TAB :: id ++ TAB :: S_ "PLAIN" ++ TAB :: S_ "service=smtp" ++ TAB ::
+                S_ "resp=" ++ b64_encode (z ++ NUL :: u ++ NUL :: p)) = Some (id, u, p).
+Proof. exact sasl_decoded_exact. Qed.
+Print Assumptions c04_sasl_decoded_exact.
+
+(** (d) for EVERY request line and backend outcome: one line, carrying the id,
+    unless the decoded user name contains TAB or LF *)
+Theorem c04_sasl_single_line : forall domain raw b id,
+  contains_byte raw LF = false -> request_id raw = Some id ->
+  classify_sasl domain raw <> Some F_sasl_reply_injection ->
+  single_line (s_wrote (sasl_line domain raw b)) = true
+  /\ carries_id id (s_wrote (sasl_line domain raw b)) = true.
+Proof. exact sasl_single_line. Qed.
+Print Assumptions c04_sasl_single_line.
+
+(** (b) for EVERY line (any command, mechanism, parameters, encoding) and
+    backend outcome outside the finding classes: an OK line only after a 200
+    for a request carrying exactly the decoded pair *)
+Theorem c04_sasl_ok_only_200 : forall domain raw b,
+  contains_byte raw LF = false -> classify_sasl domain raw = None ->
+  has_ok_line (s_wrote (sasl_line domain raw b)) = true ->
+  accepted b = true /\
+  exists id u p, sasl_decoded raw = Some (id, u, p)
+    /\ s_sent (sasl_line domain raw b) = [build_body (address_of domain u) p]
+    /\ body_exact (build_body (address_of domain u) p) (address_of domain u) p
+    /\ s_wrote (sasl_line domain raw b) = S_ "OK" ++ TAB :: id ++ TAB :: S_ "user=" ++ u ++ [LF].
+Proof. exact sasl_ok_only_200. Qed.
+Print Assumptions c04_sasl_ok_only_200.
+
 (** ---- refuted regions: raven violates the property there ---- *)
 
 (** JSON injection: the backend is asked about TWO e-mail members; a
@@ -127,10 +201,49 @@ Proof.
 Qed.
 Print Assumptions c04_refuted_multi_at.
 
+(** LOGIN "a b" "p q": split on blanks before unquoting, the backend is asked
+    about a / b *)
+Theorem c04_refuted_login_tokens :
+  let line := login_line (S_ "k1") Quoted Quoted (S_ "a b") (S_ "p q") in
+  classify_login Quoted Quoted (S_ "a b") (S_ "p q") = Some F_login_tokens
+  /\ login_creds false true line = Creds (S_ "a") (S_ "b")
+  /\ ~ imap_spec (S_ "d.test") (S_ "a b") (S_ "p q") true
+        (run_creds (S_ "d.test") (login_creds false true line) (Status 200) true true).
+Proof.
+  split; [vm_compute; reflexivity|]. split; [vm_compute; reflexivity|].
+  intros H. apply imap_spec_b_iff in H. vm_compute in H. discriminate.
+Qed.
+Print Assumptions c04_refuted_login_tokens.
+
+(** SASL user name with LF: after a 401 the answer has a second line that is
+    an OK for the same request id *)
+Definition inj_sasl_line : str :=
+  S_AUTH ++ TAB :: S_ "8" ++ TAB :: S_ "PLAIN" ++ TAB :: S_ "service=smtp" ++ TAB ::
+  S_ "resp=" ++ b64_encode (NUL :: S_ "x" ++ LF :: S_ "OK" ++ TAB :: S_ "8" ++ TAB :: S_ "user=admin" ++ NUL :: S_ "pw").
+Theorem c04_refuted_sasl_reply_injection :
+  classify_sasl (S_ "d.test") inj_sasl_line = Some F_sasl_reply_injection
+  /\ contains_byte inj_sasl_line LF = false
+  /\ accepted (Status 401) = false
+  /\ has_ok_line (s_wrote (sasl_line (S_ "d.test") inj_sasl_line (Status 401))) = true
+  /\ single_line (s_wrote (sasl_line (S_ "d.test") inj_sasl_line (Status 401))) = false.
+Proof. repeat split; vm_compute; reflexivity. Qed.
+Print Assumptions c04_refuted_sasl_reply_injection.
+
 (** non-vacuity: hypotheses are satisfiable and the accepting path exists *)
 Example c04_accepting_path :
   classify_cred (S_ "d.test") (S_ "alice") (S_ "s3cret {pw}") = None
   /\ answer (authenticate_user (S_ "d.test") (S_ "alice") (S_ "s3cret {pw}") (Status 200) true true) = R_OK
   /\ bound (authenticate_user (S_ "d.test") (S_ "alice") (S_ "s3cret {pw}") (Status 200) true true)
      = Some (S_ "alice", S_ "d.test").
-Proof. vm_compute. repeat split; reflexivity. Qed.
+Proof. repeat split; vm_compute; reflexivity. Qed.
+
+Example c04_sasl_accepting_path :
+  let line := S_AUTH ++ TAB :: S_ "7" ++ TAB :: S_ "PLAIN" ++ TAB :: S_ "service=smtp" ++ TAB ::
+              S_ "resp=" ++ b64_encode (NUL :: S_ "bob" ++ NUL :: S_ "pw") in
+  classify_sasl (S_ "d.test") line = None
+  /\ s_wrote (sasl_line (S_ "d.test") line (Status 200)) = S_ "OK" ++ TAB :: S_ "7" ++ TAB :: S_ "user=bob" ++ [LF].
+Proof. split; vm_compute; reflexivity. Qed.
+
+Example c04_b64_vectors :
+  b64_encode (S_ "foobar") = S_ "Zm9vYmFy" /\ b64_encode (S_ "fooba") = S_ "Zm9vYmE=" /\ b64_encode (S_ "foob") = S_ "Zm9vYg==".
+Proof. repeat split; vm_compute; reflexivity. Qed.
